@@ -25,9 +25,34 @@ def gen_project(rng, seed, nfiles, dup_fragments=True):
     return files
 
 
-def orders_run(proj, work, nruns, seed):
+def race_harness():
+    """thorough tier: the harness built with the Go race detector (built once, cached)"""
+    hb = B + '/harness-race'
+    if not os.path.exists(hb) or os.path.getmtime(hb) < os.path.getmtime(B + '/harness'):
+        rc, o, e = run(['go', 'build', '-race', '-tags', 'verif', '-o', hb, '.'], timeout=1800, cwd=V + '/harness', env=dict(ENV, GOFLAGS='-mod=mod', CGO_ENABLED='1'))
+        if rc != 0:
+            return None
+    return hb
+
+
+def buffered_ok(w, queue, out):
+    """decides the relation `buffered w [] queue out` of Scan/Pool.v (a w-place reorder buffer): the merge
+    orders Pool.v proves reachable (pool_merge_orders_iff).  Greedy: take lazily, emit when present."""
+    q, h = list(queue), []
+    for x in out:
+        while x not in h:
+            if not q or len(h) >= w:
+                return False
+            h.append(q.pop(0))
+        h.remove(x)
+    return not q and not h
+
+
+def orders_run(proj, work, nruns, seed, binary=None):
     out = work + '/orders.txt'
-    rc, o, e = run([B + '/harness', 'orders', proj, out, str(nruns), str(seed)], timeout=1800, env=dict(ENV, HOME=work))
+    rc, o, e = run([binary or (B + '/harness'), 'orders', proj, out, str(nruns), str(seed)], timeout=1800, env=dict(ENV, HOME=work))
+    if b'DATA RACE' in e or b'DATA RACE' in o:
+        return dict(error='DATA RACE reported by the Go race detector: ' + (e + o).decode(errors='replace')[-1500:], race=True)
     if rc != 0:
         return dict(error='harness orders failed rc=%d %s' % (rc, e.decode(errors='replace')[-300:]))
     runs, final, locals_ = [], [], []
@@ -73,6 +98,14 @@ def check_c07(pid, tier, seed, res, work):
         proj = '%s/p%d' % (work, pi)
         os.makedirs(proj, exist_ok=True)
         qrun.write_project(proj, files)
+        if tier == 'thorough' and pi in (3, 6, 9):
+            hb = race_harness()
+            if hb:
+                rr = orders_run(proj, work, 4, seed + pi, binary=hb)
+                stats['race_detector_runs'] += 1
+                if rr.get('race'):
+                    res.violations.append(dict(property='C07', what='data race during graph.Initialize', detail=rr['error'],
+                                               project=[(p, d.decode('utf-8', 'replace')) for p, d in files], how='harness built with -race, `orders` on the project'))
         r = orders_run(proj, work, 6 if tier == 'quick' else 30, seed + pi)
         if 'error' in r:
             res.tie_broken.append('orders campaign could not run: ' + r['error'])
@@ -86,6 +119,15 @@ def check_c07(pid, tier, seed, res, work):
             stats['gate_timeouts'] += sum(1 for x in runs if x['timeout'] == 'true')
         forced = [x for x in runs if x['kind'] == 'forced' and x['timeout'] == 'false' and x['want'] != 'x']
         stats['forced_order_obeyed'] += sum(1 for x in forced if x['want'] == x['observed'])
+        # every observed arrival order must be one the worker-pool model (Scan/Pool.v) proves reachable
+        disk_order = sorted((os.path.join(proj, f) for f, _ in files), key=lambda p_: [seg.encode() for seg in p_.split('/')])
+        for x in runs:
+            obs = [f for f in unhx(x['observed']).decode().split('\x00') if f]
+            if len(obs) == len(disk_order) and x['timeout'] == 'false':
+                stats['orders_checked_against_pool_model'] += 1
+                if not buffered_ok(5, disk_order, obs):
+                    res.tie_broken.append('an observed arrival order is not reachable in the worker-pool model (buffered 5): %s' % [os.path.basename(f) for f in obs][:12])
+                    break
         hashes = set(x['hash'] for x in runs)
         if len(hashes) > 1:
             a = runs[0]
@@ -243,6 +285,82 @@ def check_c08(pid, tier, seed, res, work):
     return stats, samples
 
 
+def check_walk(tier, seed, res, work, stats):
+    """file discovery: the extracted get_files (Scan/Merge.v) against the real graph.getFiles on generated
+    directory trees with mixed extensions, nested directories and unreadable directories (real chmod, as uid 65534)"""
+    rng = random.Random('walk/%d' % seed)
+    names_f = ['A.java', 'b.java', 'C.JAVA', 'd.jav', 'java', 'e.java.txt', '.hidden.java', 'f g.java', 'Z.java', 'ü.java', 'x.y.java', 'noext']
+    names_d = ['src', 'a', 'b.java', 'Zed', 'deep', 'x y']
+    for trial in range(40 if tier == 'quick' else 600):
+        root = '%s/w%d' % (work, trial)
+        def gen(depth):
+            kids = []
+            for nm in rng.sample(names_f, rng.randint(0, 5)):
+                kids.append(('F', nm))
+            if depth < 3:
+                for nm in rng.sample(names_d, rng.randint(0, 3)):
+                    if nm not in [k[1] for k in kids]:
+                        kids.append(('D', nm, rng.random() < 0.8, gen(depth + 1)))
+            return sorted(kids, key=lambda k: k[1].encode('utf-8'))
+        root_readable = rng.random() < 0.93
+        tree = ('D', os.path.basename(root), root_readable, gen(0))
+        def mk(path, node):
+            if node[0] == 'F':
+                open(path, 'wb').write(b'class X {}')
+                os.chmod(path, 0o644)
+            else:
+                os.makedirs(path, exist_ok=True)
+                for k in node[3]:
+                    mk(os.path.join(path, k[1]), k)
+        mk(root, tree)
+        def perms(path, node):
+            if node[0] == 'D':
+                for k in node[3]:
+                    perms(os.path.join(path, k[1]), k)
+                os.chmod(path, 0o755 if node[2] else 0o000)
+        perms(root, tree)
+        out = '%s/walk_%d.out' % (work, trial)
+        open(out, 'w').close(); os.chmod(out, 0o666)
+        rc, o, e = run(['setpriv', '--reuid=65534', '--regid=65534', '--clear-groups', B + '/harness', 'getfiles', root, out], timeout=60, env=dict(ENV, HOME=work))
+        impl = open(out).read().strip()
+        lines = []
+        def ser(node):
+            if node[0] == 'F':
+                lines.append('F x' + node[1].encode('utf-8').hex())
+            else:
+                lines.append('D x%s %d %d' % (node[1].encode('utf-8').hex(), 1 if node[2] else 0, len(node[3])))
+                for k in node[3]:
+                    ser(k)
+        ser(tree)
+        pm = subprocess.run([B + '/model', 'walk', 'x' + root.encode('utf-8').hex()], input=('\n'.join(lines) + '\n').encode(), capture_output=True, timeout=60)
+        model = pm.stdout.decode().strip()
+        stats['walk_trees'] += 1
+        impl_c = 'ERROR' if impl.startswith('ERROR') else impl
+        if impl_c != model:
+            if not any('getFiles' in t for t in res.tie_broken):
+                res.tie_broken.append('correspondence (file discovery): model get_files differs from graph.getFiles on tree %d: impl=%s model=%s' % (trial, impl_c[:200], model[:200]))
+        # oracle (independent of the model): exactly the regular files named *.java below readable directories
+        exp = []
+        def walk(path, node, ok):
+            if node[0] == 'F':
+                if ok and os.path.splitext(node[1])[1] == '.java':
+                    exp.append(path)
+            else:
+                for k in node[3]:
+                    walk(os.path.join(path, k[1]), k, ok and node[2])
+        walk(root, tree, True)
+        if impl.startswith('FILES'):
+            got = [bytes.fromhex(x[1:]).decode('utf-8') for x in __import__('re').findall(r'x[0-9a-f]*', impl[6:])]
+            if sorted(got) != sorted(exp):
+                res.violations.append(dict(property='C08', what='file discovery does not yield exactly the .java files below readable directories',
+                                           missing=[x for x in exp if x not in got][:3], extra=[x for x in got if x not in exp][:3], tree=lines[:60],
+                                           how='graph.getFiles on the directory tree (as a non-root user)'))
+        elif root_readable:
+            res.violations.append(dict(property='C08', what='file discovery failed although the root is readable', tree=lines[:60], detail=impl[:200]))
+        subprocess.run(['chmod', '-R', 'u+rwx', root], capture_output=True)
+        shutil.rmtree(root, ignore_errors=True)
+
+
 def check(pid, tier, seed, t0, st, replay):
     res = Result(pid)
     gate = source_gate()
@@ -257,6 +375,8 @@ def check(pid, tier, seed, t0, st, replay):
     try:
         if st.get('harness', 1) == 0 and st.get('ocaml', 1) == 0:
             stats, samples = (check_c07 if pid == 'C07' else check_c08)(pid, tier, seed, res, work)
+            if pid == 'C08':
+                check_walk(tier, seed, res, work, stats)
             res.coverage.update(dict(
                 evaluations=stats.get('runs', 0) + stats.get('pairs', 0),
                 distinct_nontrivial=stats.get('distinct_observed_orders', 0) + stats.get('pairs', 0),
